@@ -190,7 +190,11 @@ def gen_solve_op(rng, spec, variant, idx, tier):
     else:
         off = rng.choice([-n, n, -(tn + 1), n - tn, -(n + 3), n + 3])
     opts['offset'] = off
+    if spec.get('dtype') == 'int64':
+        opts['tol'] = rng.choice([1, 1, 2, 2.0, 1.0])
     plan, placed = gen_plan(rng, opts, spec, faults, idx)
+    if spec.get('dtype') == 'int64':
+        plan = integer_plan(plan)
     op = {
         'op': rng.choice(['solve_t'] * 11 + ['solve_period'] * 6 + ['solve1'] * 3),  # solve1: solve(start=label, end=label)
         'np_ints': rng.random() < 0.15,  # positions / counts arrive as NumPy integers, as they do from array arithmetic
@@ -329,6 +333,8 @@ def generate(rng, idx, tier, variant):
     if rng.random() < 0.08:
         spec['dtype'] = 'float32'  # the model's own dtype= argument: every series, and the solver's step arithmetic, in single precision
         spec['_allow_huge'] = False  # (huge float64 values would overflow on the way into the model's arrays)
+    elif variant == 'solver' and rng.random() < 0.07:
+        make_integer_model(rng, spec)
     ops = []
     two = rng.random() < 0.3  # a sibling instance of the same class takes part in the history
     last_t = None
@@ -346,7 +352,7 @@ def generate(rng, idx, tier, variant):
         r = rng.random()
         names = spec['endo'] + spec['exo']
         if r < 0.25:
-            ops.append({'op': 'poke', 'obj': who, 'name': rng.choice(names), 'pos': rng.randrange(spec['span']['n']), 'v': rng.choice(DYADS)})
+            ops.append({'op': 'poke', 'obj': who, 'name': rng.choice(names), 'pos': rng.randrange(spec['span']['n']), 'v': rng.choice(DYADS) if spec.get('dtype') != 'int64' else BIG + rng.randrange(64)})
         elif r < 0.35:
             ops.append({'op': 'copy', 'obj': who, 'route': rng.choice(['copy', 'deepcopy'])})
         elif r < 0.42:
@@ -394,7 +400,32 @@ def gen_parser_schedule(rng, idx, tier):
 
 
 def _dtype_kw(spec):
-    return {'dtype': np.float32} if spec.get('dtype') == 'float32' else {}
+    return {'dtype': np.float32} if spec.get('dtype') == 'float32' else {'dtype': np.int64} if spec.get('dtype') == 'int64' else {}
+
+
+BIG = 2**53  # from here on float64 cannot tell neighbouring integers apart
+
+
+def make_integer_model(rng, spec):
+    """An integer-typed model (dtype=np.int64) whose values lie beyond 2**53: moves of 1 are real moves."""
+    spec['dtype'] = 'int64'
+    spec['_allow_huge'] = False
+    spec.pop('mixins', None)
+    n = spec['span']['n']
+    spec['init'] = {nm: [BIG + rng.randrange(0, 64) for _ in range(n)] for nm in spec['endo'] + spec['exo']}
+
+
+def integer_plan(plan):
+    """The same per-pass outcomes in whole numbers (tol is 1 or 2 in integer runs)."""
+    for ps in [plan.get('passes', [])]:
+        for k, act in enumerate(ps):
+            if act.get('a') in ('delta', 'npunder'):
+                ps[k] = {'a': 'delta', 'd': [(int(round(d_)) if abs(d_) >= 1 else 0) for d_ in act.get('d', [])]}
+            elif act.get('a') == 'set':
+                ps[k] = {'a': 'delta', 'd': [0 for _ in act.get('v', [])]}
+    plan.pop('before', None)
+    plan.pop('after', None)
+    return plan
 
 
 def build(fsic, spec):
@@ -410,7 +441,7 @@ def build(fsic, spec):
             cls = type('Mixed', tuple(table[k] for k in spec['mixins']) + (cls,), attrs)
         m = probes.new_scripted_instance(cls, span, spec['init'], **_dtype_kw(spec))
         if spec.get('dtype'):
-            assert all(m.__dict__['_' + nm].dtype == np.float32 for nm in spec['endo'] + spec['exo']), 'harness: dtype= not honoured by the scripted class'
+            assert all(m.__dict__['_' + nm].dtype == {'float32': np.float32, 'int64': np.int64}[spec['dtype']] for nm in spec['endo'] + spec['exo']), 'harness: dtype= not honoured by the scripted class'
         return m, span, list(spec['endo']), list(spec['check']), list(spec['exo'])
     symbols = fsic.parse_model(spec['script'])
     base = fsic.build_model(symbols)
@@ -595,7 +626,7 @@ def execute(schedule, ctx):
             # a sibling: a second instance of the very same class, on its own span object
             sib = type(pool[0])(spans.make_span(spec['span']), **_dtype_kw(spec))
             for nm, vals in spec['init'].items():
-                sib.__dict__['_' + nm][:] = np.array([probes.fval(v) for v in vals], dtype=float)
+                sib.__dict__['_' + nm][:] = np.array(vals, dtype=np.int64) if spec.get('dtype') == 'int64' else np.array([probes.fval(v) for v in vals], dtype=float)
             probes.attach_ctl(sib)
             pool[who] = sib
             ctx.probe('sibling-instance-in-history')
@@ -644,7 +675,7 @@ def execute(schedule, ctx):
             continue
         if op['op'] == 'poke':
             if op['name'] in m.__dict__['index'] and 0 <= op['pos'] < n:
-                m.__dict__['_' + op['name']][op['pos']] = probes.fval(op['v'])
+                m.__dict__['_' + op['name']][op['pos']] = op['v'] if isinstance(op['v'], int) else probes.fval(op['v'])
                 if isinstance(op['v'], str):
                     ctx.fault('preexisting-nonfinite')
                 elif spec['kind'] == 'parser':
